@@ -62,6 +62,8 @@ def _bound(job, b2):
     kt = job.get("ktype", "int")
     if job["fn"] == "score_wu":
         return b2 // 2 if (kt != "float" and b2 % 2 == 0) else b2 / 2.0
+    if b2 % 2:                   # a fractional level (k + 1/2) can only be typed as a float
+        return np.float64(b2 / 2.0) if kt == "np" else b2 / 2.0
     return {"int": int, "float": float, "np": np.int64}[kt](b2 // 2)
 
 
@@ -188,7 +190,12 @@ def exec_job(job):
 # ------------------------------------------------------------------ inputs
 def k_bounds(n, kind):
     top = 2 * (n - 1) if kind == "bd" else n - 1
-    return [2 * k for k in range(0, max(top, 0) + 2)]
+    # doubled levels: the integers k = 0 .. top + 1 and, for graphs of up to 12 nodes, the half-integers
+    # between them ("every node keeps degree at least k" is meaningful for any real k, e.g. a mean degree)
+    ks = [2 * k for k in range(0, max(top, 0) + 2)]
+    if n <= 12:
+        ks = sorted(set(ks) | set(2 * k + 1 for k in range(0, max(top, 0) + 1)))
+    return ks
 
 
 def s_bounds_full(A):
